@@ -71,6 +71,36 @@ def load_known():
         return json.load(f).get('findings', [])
 
 
+def unexplained(results, known_keys):
+    return [r for r in results if r['status'] == 'violation' and r['key'] not in known_keys]
+
+
+def evaluate(mod, prop, tier, cfg, F, deps, th, with_floors):
+    """Judge every rule instance of a property on one program representation in one configuration."""
+    from . import lib as _lib
+    ctx = Ctx(prop, tier, cfg, F, deps, th)
+    _lib.CURRENT_FACTS[0] = F
+    try:
+        mod.check(ctx)
+    except AnchorLost:
+        pass
+    except Exception as e:
+        tb = traceback.format_exc()
+        ctx.results.append({'inst': 'ENGINE', 'status': 'violation', 'site': '-', 'detail': 'rule engine failed closed: %r\n%s' % (e, tb[-1500:]),
+                            'key': 'ENGINE|%r' % (e,), 'rule': 'ENGINE-ERROR', 'config': cfg})
+    if with_floors:
+        by_inst = {}
+        for r in ctx.results:
+            by_inst[r['inst']] = by_inst.get(r['inst'], 0) + 1
+        for inst, floor in getattr(mod, 'FLOORS', {}).items():
+            got = sum(v for k, v in by_inst.items() if k == inst or k.startswith(inst + '/'))
+            if got < floor:
+                ctx.results.append({'inst': inst, 'status': 'violation', 'site': '-', 'config': cfg,
+                                    'detail': 'ANCHOR-LOST: instance count %d below confirmed floor %d' % (got, floor),
+                                    'key': '%s|FLOOR' % inst, 'rule': 'ANCHOR-LOST'})
+    return ctx
+
+
 def run_property(prop, tier, replay=None):
     t0 = time.time()
     mod = importlib.import_module('envstat.props.' + prop)
@@ -82,7 +112,10 @@ def run_property(prop, tier, replay=None):
     skipped = []
     stats = {}
     analysed = []
-    crashed = []
+    nf_notes = []
+    floors = getattr(mod, 'FLOORS', {})
+    known = [k for k in load_known() if k.get('property') == prop and k.get('status') == 'known']
+    known_keys = {k['key']: k for k in known}
     for cfg in configs:
         paths, th = extract.facts_paths(cfg, need_deps=need_deps)
         F = factsmod.Facts(paths['bc_envelope'])
@@ -90,42 +123,43 @@ def run_property(prop, tier, replay=None):
         if need_deps:
             for c in ('dcbor', 'bc_components'):
                 deps[c] = factsmod.Facts(paths[c])
-        ctx = Ctx(prop, tier, cfg, F, deps, th)
-        from . import lib as _lib
-        _lib.CURRENT_FACTS[0] = F
         required = getattr(mod, 'REQUIRES', [])
-        if not ctx.has(*required):
+        if not set(required) <= set(F.features):
             skipped.append({'inst': '*', 'why': 'configuration lacks features %s: property mechanism compiled out' % required, 'config': cfg})
-            analysed.append({'config': cfg, 'features': sorted(ctx.features), 'bodies': len(F.bodies), 'tree': th, 'applicable': False})
+            analysed.append({'config': cfg, 'features': sorted(F.features), 'bodies': len(F.bodies), 'tree': th, 'applicable': False})
             continue
-        try:
-            mod.check(ctx)
-        except AnchorLost:
-            pass
-        except Exception as e:
-            tb = traceback.format_exc()
-            ctx.results.append({'inst': 'ENGINE', 'status': 'violation', 'site': '-', 'detail': 'rule engine failed closed: %r\n%s' % (e, tb[-1500:]),
-                                'key': 'ENGINE|%r' % (e,), 'rule': 'ENGINE-ERROR', 'config': cfg})
+        with_floors = cfg == configs[0]
+        ctx = evaluate(mod, prop, tier, cfg, F, deps, th, with_floors)
+        nf_used = None
+        if unexplained(ctx.results, known_keys) and not os.environ.get('VERIF_NO_NORMAL_FORMS'):
+            # re-judge on behaviour-preserving normal forms of the same program before reporting
+            from . import normalize
+            for policy in ('new-helpers', 'all-helpers'):
+                try:
+                    NF, inlined = normalize.normal_form(F, policy)
+                except Exception as e:
+                    NF, inlined = None, []
+                    nf_notes.append({'config': cfg, 'policy': policy, 'error': repr(e)})
+                if NF is None:
+                    continue
+                ctx2 = evaluate(mod, prop, tier, cfg, NF, deps, th, with_floors)
+                bad2 = unexplained(ctx2.results, known_keys)
+                nf_notes.append({'config': cfg, 'policy': policy, 'inlined': inlined[:40], 'violations_as_written': len(unexplained(ctx.results, known_keys)),
+                                 'violations_on_normal_form': len(bad2)})
+                if os.environ.get('VERIF_SHOW_NF'):
+                    for v in bad2:
+                        print('  [normal form %s] %s %s -- %s' % (policy, v['site'], v['inst'], v['detail'][:300]))
+                if not bad2:
+                    ctx = ctx2
+                    nf_used = policy
+                    break
         all_results.extend(ctx.results)
         skipped.extend(ctx.skipped)
         for k, v in ctx.stats.items():
             stats[k] = stats.get(k, 0) + v
         ncalls = sum(1 for b in F.bodies for _ in b.calls())
-        analysed.append({'config': cfg, 'features': sorted(ctx.features), 'bodies': len(F.bodies), 'call_sites': ncalls, 'tree': th, 'applicable': True})
-    # floors
-    floors = getattr(mod, 'FLOORS', {})
-    by_inst_default = {}
-    for r in all_results:
-        if r['config'] == configs[0]:
-            by_inst_default[r['inst']] = by_inst_default.get(r['inst'], 0) + 1
-    for inst, floor in floors.items():
-        got = sum(v for k, v in by_inst_default.items() if k == inst or k.startswith(inst + '/'))
-        if got < floor:
-            all_results.append({'inst': inst, 'status': 'violation', 'site': '-', 'config': configs[0],
-                                'detail': 'ANCHOR-LOST: instance count %d below confirmed floor %d' % (got, floor),
-                                'key': '%s|FLOOR' % inst, 'rule': 'ANCHOR-LOST'})
-    known = [k for k in load_known() if k.get('property') == prop and k.get('status') == 'known']
-    known_keys = {k['key']: k for k in known}
+        analysed.append({'config': cfg, 'features': sorted(ctx.features), 'bodies': len(F.bodies), 'call_sites': ncalls, 'tree': th, 'applicable': True,
+                         'normal_form': nf_used})
     viols = [r for r in all_results if r['status'] == 'violation']
     # de-duplicate across configurations by key
     seen = {}
@@ -206,6 +240,7 @@ def run_property(prop, tier, replay=None):
             'absent_by_cfg': skipped[:40],
             'stats': stats,
             'floors': floors,
+            'normal_forms': nf_notes,
             'samples': samples,
             'checker_cmd': './check %s %s' % (prop, tier),
             'trusted_base': getattr(mod, 'TRUSTED', []) + [
